@@ -8,10 +8,11 @@ Definition law_b64 (X : ext) : Prop := forall x, b64d X (b64e X x) = Some x.
 Definition law_sanitize (X : ext) : Prop := forall s, utf8_ok X s = true -> sanitize X s = s.
 Definition law_dechunk (X : ext) : Prop := forall b, dechunk X (chunk_enc b) = Some b.
 
-(* a request as net/http presents it: header keys unique (a Go map); without
-   Transfer-Encoding the Content-Length is the body length *)
+(* header keys unique (a Go map); a body travels under a framing: with
+   ContentLength <= 0 and no transfer coding the Body is empty.  Nothing else
+   is assumed of the (ContentLength, TransferEncoding, Body) triple. *)
 Definition wf_req (m : rmsg) : Prop :=
-  NoDup (keys (q_hdrs m)) /\ (q_te m = [] -> q_cl m = blen (q_body m)).
+  NoDup (keys (q_hdrs m)) /\ ((q_cl m <= 0)%Z -> q_te m = [] -> q_body m = []).
 Definition wf_res (m : pmsg) : Prop := NoDup (keys (s_hdrs m)).
 
 (* ------------------------------------------------------------- requests *)
@@ -51,7 +52,7 @@ Proof.
   unfold post_spec. cbn [r_post]. unfold post_data in P.
   destruct ((q_cl m <=? 0)%Z && is_nil (q_te m))%bool eqn:C.
   - inversion P; subst. apply andb_true_iff in C. destruct C as [C1 C2].
-    apply is_nil_true in C2. apply Z.leb_le in C1. apply blen_nil. rewrite <- (WF C2). exact C1.
+    apply is_nil_true in C2. apply Z.leb_le in C1. exact (WF C1 C2).
   - destruct (media X (hget k_ct (q_hdrs m))) as [mt bnd].
     destruct (capture o (q_hdrs m)); cbn [negb] in P.
     + rewrite (snapshot_read_back X _ _ L) in P.
